@@ -40,25 +40,31 @@ Definition inline (e : entry) : bool := match exec_site e with LoopInline => tru
 
 Definition x_builtin (k : call) : xinv := mkX PBuiltin (meth_of k) 0 OnLoop false (bargs k) true false.
 
-Definition x_of (p : part) (m : name) (args : list arg) (fut : bool) (e : entry) : xinv :=
-  mkX p m (e_fid e) (tsite_of (exec_site e)) (e_inject e) args (inline e) fut.
+(* `inj`: whether the server is passed - in the promise: iff the function asks for it; in what
+   the code does (`actual`): iff the registered callable binds it *)
+Definition x_of (inj : entry -> bool) (p : part) (m : name) (args : list arg) (fut : bool) (e : entry) : xinv :=
+  mkX p m (e_fid e) (tsite_of (exec_site e)) (inj e) args (inline e) fut.
+
+Definition asked (c : cfg) (e : entry) : bool := memN (e_fid e) (c_asks c).
 
 Definition is_req (k : call) : bool := match req_id k with Some _ => true | None => false end.
 
-Definition cmd_part (c : cfg) (k : call) : list xinv :=
+Definition cmd_part (inj : entry -> bool) (c : cfg) (k : call) : list xinv :=
   match k with
-  | CExecCmd _ cmd a => map (x_of PCommand (Some cmd) [AVal a] true) (exec_command (c_reg c) (Some cmd))
+  | CExecCmd _ cmd a => map (x_of inj PCommand (Some cmd) [AVal a] true) (exec_command (c_reg c) (Some cmd))
   | _ => []
   end.
 
-Definition user_part (c : cfg) (k : call) : list xinv :=
+Definition user_part (inj : entry -> bool) (c : cfg) (k : call) : list xinv :=
   let users := snd (dispatch builtins (c_reg c) (meth_of k)) in
-  if is_builtin_call k then map (x_of PUser (meth_of k) (bargs k) false) users
-  else map (x_of PUser (meth_of k) [ACall k] (is_req k)) users.
+  if is_builtin_call k then map (x_of inj PUser (meth_of k) (bargs k) false) users
+  else map (x_of inj PUser (meth_of k) [ACall k] (is_req k)) users.
+
+Definition parts (inj : entry -> bool) (c : cfg) (k : call) : list xinv :=
+  (if is_builtin_call k then [x_builtin k] else []) ++ cmd_part inj c k ++ user_part inj c k.
 
 (* the promise *)
-Definition expect (c : cfg) (k : call) : list xinv :=
-  (if is_builtin_call k then [x_builtin k] else []) ++ cmd_part c k ++ user_part c k.
+Definition expect (c : cfg) (k : call) : list xinv := parts (asked c) c k.
 
 (* the built-in does not raise *)
 Definition builtin_ok (c : cfg) (w : wsp) (k : call) : bool :=
@@ -73,8 +79,14 @@ Definition builtin_ok (c : cfg) (w : wsp) (k : call) : bool :=
 
 (* what the code does when the built-in raises: the user's feature is skipped *)
 Definition actual (c : cfg) (w : wsp) (k : call) : list xinv :=
-  if is_builtin_call k && negb (builtin_ok c w k) then x_builtin k :: cmd_part c k
-  else expect c k.
+  if is_builtin_call k && negb (builtin_ok c w k) then x_builtin k :: cmd_part e_inject c k
+  else parts e_inject c k.
+
+(* every registered callable binds the server iff its function asks for it (executable guard: it
+   fails for a function that asks by ANNOTATION while typing.get_type_hints fails on it - finding) *)
+Definition inj_ok (c : cfg) : bool :=
+  forallb (fun p => Bool.eqb (e_inject (snd p)) (asked c (snd p))) (features (c_reg c)) &&
+  forallb (fun p => Bool.eqb (e_inject (snd p)) (asked c (snd p))) (commands (c_reg c)).
 
 (* handle_message's gate: after `shutdown` nothing is delivered *)
 Definition delivered (w : wsp) : bool := negb (w_shut w).
@@ -103,7 +115,7 @@ Definition spec_reply (c : cfg) (w : wsp) (k : call) : xreply :=
 
 (* the message does not lose a user's handler to a raising built-in *)
 Definition msg_ok (c : cfg) (w : wsp) (k : call) : bool :=
-  negb (is_builtin_call k) || builtin_ok c w k || match user_part c k with [] => true | _ => false end.
+  negb (is_builtin_call k) || builtin_ok c w k || match user_part e_inject c k with [] => true | _ => false end.
 
 (* per message: delivered?, inside the guard?, the promise, the workspace afterwards, the reply *)
 Record xmsg := mkXM { xm_delivered : bool; xm_ok : bool; xm_expect : list xinv; xm_ws : wsp; xm_reply : xreply }.
@@ -122,8 +134,10 @@ Definition calls_of (evs : list ev) : list call :=
 
 (* the guard of C14_partial: no delivered message makes its built-in raise while a user feature is
    registered for the same method (exactly the messages on which a user's handler is skipped) *)
-Fixpoint all_ok (c : cfg) (w : wsp) (ks : list call) : bool :=
+Fixpoint msgs_ok (c : cfg) (w : wsp) (ks : list call) : bool :=
   match ks with
   | [] => true
-  | k :: r => (negb (delivered w) || msg_ok c w k) && all_ok c (spec_step c w k) r
+  | k :: r => (negb (delivered w) || msg_ok c w k) && msgs_ok c (spec_step c w k) r
   end.
+
+Definition all_ok (c : cfg) (w : wsp) (ks : list call) : bool := inj_ok c && msgs_ok c w ks.
